@@ -4,7 +4,7 @@ import json, subprocess, threading, re
 from common import *
 
 TOK = {"pop": None, "pop_shutdown": "popshut", "probe_ok": "pok", "probe_fail": "pfail", "connect_ok": "cok",
-       "connect_fail": "cfail", "send_ok": "sok", "send_err": "serr", "recycle_park": "rpark", "recycle_close": "rclose",
+       "connect_fail": "cfail", "send_ok": "sok", "send_err": "serr", "test_fail": "serr", "recycle_park": "rpark", "recycle_close": "rclose",
        "shutdown": "shutdown", "maint_scan": "mscan", "maint_exit": "mexit", "maint_connect_ok": "mcok",
        "maint_push": "mpush", "maint_drop_new": "mdrop", "maint_abort": "mabort"}
 
@@ -66,7 +66,7 @@ def to_trace(log):
                 continue
             if point in ("probe_ok", "connect_ok"):
                 handed[c] = i
-            if point == "send_err":
+            if point in ("send_err", "test_fail"):
                 since = handed.get(c, 0)
                 committed = any(x[1] == "S" and x[2] == c and x[3] == "COMMIT" for x in log[since:i])
                 t = "serr:%d:%d" % (c, 1 if committed else 0)
@@ -442,6 +442,8 @@ def gen_faults(rng, kind, n):
             ops.append(send_op("f%d" % j, rng))
             if rng.random() < 0.3:
                 ops.append({"op": "debug"})
+            if rng.random() < 0.25:
+                ops.append({"op": "test"})       # test_connection(): a NOOP on a pooled connection outside any send - it may meet the fault too
         if two:
             sc["senders"] = [ops, [send_op("g%d" % j, rng) for j in range(rng.randint(1, 3))]]
         else:
@@ -559,7 +561,7 @@ def gen_shutdown(rng, kind, n):
         mx = rng.randint(1, 3)
         pool = {"max": mx, "min_idle": rng.choice([0, 0, 1, 2]), "idle_ms": rng.choice([60000, 60000, 50])}
         sc = base(rng, kind, pool)
-        variant = k % 5 if k % 10 == 4 else (5 if k % 10 == 9 else (6 if k % 10 == 7 else k % 4))
+        variant = k % 5 if k % 10 == 4 else (5 if k % 10 == 9 else (6 if k % 10 == 7 else (7 if k % 10 == 3 else k % 4)))
         ns = rng.randint(1, 3)
         for s in range(ns):
             ops = [send_op("s%d-%d" % (s, j), rng) for j in range(rng.randint(1, 4))]
@@ -597,6 +599,14 @@ def gen_shutdown(rng, kind, n):
             sc["faults"] = [{"conn": 0, "cmd": "NOOP", "nth": 0, "act": "stall_close", "ms": 300}]
             sc["senders"] = [[send_op("g0", rng), {"op": "sleep", "ms": 40}, send_op("g1", rng)], [{"op": "sleep", "ms": 170}, {"op": "shutdown"}]]
             sc["after"] = [{"op": "debug"}, send_op("late", rng)]
+        elif variant == 7:
+            # an idle connection that is already older than the idle timeout when shutdown is called (the maintenance worker is kept busy by a
+            # slow greeting and has not reaped it): it is still an idle connection - QUIT and close
+            pool["max"] = 2; pool["min_idle"] = 1; pool["idle_ms"] = 50
+            sc["timeout_ms"] = 3000; sc["probe_delay_us"] = 0
+            sc["faults"] = [{"conn": 0, "cmd": "GREET", "nth": 0, "act": "stall", "ms": 900}]
+            sc["senders"] = []
+            sc["after"] = [{"op": "sleep", "ms": 20}, send_op("o0", rng), {"op": "sleep", "ms": 150}, {"op": "shutdown"}, {"op": "debug"}, send_op("late", rng)]
         elif variant == 4:
             # the maintenance worker is busy (its connect waits 1.4 s for the greeting) while shutdown is called twice
             pool["min_idle"] = rng.choice([1, 2]); pool["idle_ms"] = 60000
